@@ -140,8 +140,8 @@ int stub_err_from_host(const struct rtr_socket *s, const void *pdu, const uint32
 {
 	(void)s;
 	rep_calls++;
-	if (len < 8)
-		return RTR_ERROR; /* the real function returns without sending */
+	if (len != 0 && len < 8)
+		return RTR_ERROR; /* the real function refuses fragments of a header (proved in rtr_errpdu_unit.c) */
 	rep_sent++;
 	rep_len = len;
 	rep_code = err;
@@ -344,6 +344,7 @@ int stub_receive_pdu(struct rtr_socket *s, void *pdu, const size_t pdu_len, cons
 		p->len_enc_pdu = 0;
 		*((uint32_t *)(p->rest)) = 0;
 		e->ver = ND(uint8_t, "sc.errver");
+		e->sn = s->version; /* negotiated version when the report arrives (after a possible live downgrade) */
 		break;
 	}
 	default: /* CACHE_RESET, RESET_QUERY */
@@ -494,6 +495,8 @@ void harness(void)
 	const unsigned int pre_wk = tm_spki_count(0, &wk);
 	const unsigned int pre_other_p = tm_pfx_count_sock(0, &OTHER), pre_other_k = tm_spki_count_sock(0, &OTHER);
 	const struct rtr_socket S0 = S;
+	const struct tm_pfx_tab pre_pfx = tm_pfx0;
+	const struct tm_spki_tab pre_spki = tm_spki0;
 
 	cb_w = w1;
 	cb_net_w = 0;
@@ -511,7 +514,9 @@ void harness(void)
 	/* records of other caches are never altered */
 	VASSERT(post_wo == pre_wo && tm_pfx_count_sock(0, &OTHER) == pre_other_p && tm_spki_count_sock(0, &OTHER) == pre_other_k,
 		"C03: records learned from other caches are never altered");
-	VASSERT(!S.is_resetting, "sync: reload flag cleared on every exit");
+	VASSERT(!S.is_resetting || (S.request_session_id && S.last_update == 0 && rc == RTR_ERROR),
+		"sync: SInv preserved: a pending reload flag implies no session and no data timestamp");
+	VASSERT(S.request_session_id || S.last_update != 0, "sync: SInv preserved: an established session implies a data timestamp");
 	VASSERT(S.version <= S0.version, "C13: version never increases");
 	VASSERT(vm_live == 0, "C18 sync: every block obtained during the exchange is released again");
 
@@ -679,12 +684,16 @@ void harness(void)
 	}
 	/* an Unsupported-Version report with a lower supported version: downgrade, reconnect at once */
 	if (i0 < sc_pos && script[i0].outcome == SC_PDU && script[i0].type == ERROR && i0 + 1 == sc_pos) {
-		if (script[i0].err_code == UNSUPPORTED_PROTOCOL_VER && script[i0].ver < S0.version &&
-		    !(script[0].outcome == SC_PDU && S.version != S0.version && script[i0].ver >= S.version && 0))
-			VASSERT(rc == RTR_ERROR && S.version <= script[i0].ver && S.state == RTR_FAST_RECONNECT,
+		const unsigned int v_then = script[i0].sn;
+
+		if (script[i0].err_code == UNSUPPORTED_PROTOCOL_VER && script[i0].ver < v_then)
+			VASSERT(rc == RTR_ERROR && S.version == script[i0].ver && S.state == RTR_FAST_RECONNECT,
 				"C13: Unsupported-Version report with a lower supported version lowers the version and reconnects at once");
-		if (script[i0].err_code == UNSUPPORTED_PROTOCOL_VER && script[i0].ver >= S0.version)
-			VASSERT(rc == RTR_ERROR && S.state == RTR_ERROR_FATAL, "C13: Unsupported-Version report without a lower version is fatal");
+		if (script[i0].err_code == UNSUPPORTED_PROTOCOL_VER && script[i0].ver >= v_then)
+			VASSERT(rc == RTR_ERROR && S.version == v_then && S.state == RTR_ERROR_FATAL,
+				"C13: Unsupported-Version report without a lower version is fatal");
+		if (script[i0].err_code != UNSUPPORTED_PROTOCOL_VER)
+			VASSERT(rc == RTR_ERROR && S.version == v_then, "C13: other Error Reports never change the version");
 	}
 #endif
 #ifdef ASSERT_C14
@@ -693,7 +702,7 @@ void harness(void)
 	if (rep_sent == 1) {
 		VASSERT(rc == RTR_ERROR, "C14 sync: an Error Report is only sent for a failed response");
 		VASSERT(rep_txt_ok, "C14 sync: error text is printable text, at most NUL-terminated (no uninitialised bytes)");
-		VASSERT(rep_len == 8 || (rep_len == ((struct pdu_header *)rep_pdu)->len && rep_len <= RTR_MAX_PDU_LEN),
+		VASSERT(rep_len == 0 || rep_len == 8 || (rep_len == ((struct pdu_header *)rep_pdu)->len && rep_len <= RTR_MAX_PDU_LEN),
 			"C14 sync: the encapsulated copy is the offending PDU's header or exactly the offending PDU (its own length)");
 	}
 	VASSERT(rep_calls == rep_sent, "C14 sync: every detected violation is actually reported (the sender is not called with an empty PDU, which it drops)");
@@ -708,6 +717,53 @@ void harness(void)
 			"C14 sync: a Cache Response with a foreign session id is reported (Corrupt Data)");
 	if (i0 < sc_pos && script[i0].outcome == SC_PDU && script[i0].type == ERROR)
 		VASSERT(rep_calls == 0, "C14 sync: no Error Report in reply to an Error Report");
+	/* exactly one payload PDU between a valid Cache Response and a valid End of Data: the violation
+	 * class is decided by that PDU and the table before the response
+	 */
+	if (opener_ok && !session_mismatch && i0 + 3 == sc_pos && script[i0 + 1].outcome == SC_PDU &&
+	    script[i0 + 2].outcome == SC_PDU && script[i0 + 2].type == EOD && script[i0 + 2].session == sess_expected &&
+	    !tm_fail_enabled) {
+		const struct sc_entry *e = &script[i0 + 1];
+
+		if (e->type == IPV4_PREFIX || e->type == IPV6_PREFIX) {
+			struct tm_prec m = tm_p(&e->pr);
+			bool present = false;
+
+			for (unsigned int i = 0; i < TM_CAP; i++)
+				if (!reload && pre_pfx.used[i] && tm_prec_eq(&pre_pfx.rec[i], &m))
+					present = true;
+			unsigned int want = e->flags > 1 ? CORRUPT_DATA :
+					    (e->flags == 1 && present) ? DUPLICATE_ANNOUNCEMENT :
+					    (e->flags == 0 && !present) ? WITHDRAWAL_OF_UNKNOWN_RECORD : 99;
+			if (want == 99) {
+				VASSERT(rc == RTR_SUCCESS && rep_calls == 0, "C14 sync: a valid single-PDU response succeeds without any report");
+			} else {
+				const struct pdu_ipv4 *echo = (const struct pdu_ipv4 *)rep_pdu;
+
+				VASSERT(rc == RTR_ERROR && rep_sent == 1 && rep_code == want,
+					"C14 sync: invalid flags / duplicate announcement / unknown withdrawal are reported with their own codes");
+				VASSERT(rep_len == (e->type == IPV4_PREFIX ? 20u : 32u) && echo->type == e->type && echo->flags == e->flags &&
+						echo->prefix_len == e->pr.min_len && echo->max_prefix_len == e->pr.max_len,
+					"C14 sync: the report encapsulates the offending prefix PDU");
+			}
+		}
+		if (e->type == ROUTER_KEY) {
+			struct tm_krec m = tm_k(&e->kr);
+			bool present = false;
+
+			for (unsigned int i = 0; i < TM_CAP; i++)
+				if (!reload && pre_spki.used[i] && tm_krec_eq(&pre_spki.rec[i], &m))
+					present = true;
+			unsigned int want = e->flags > 1 ? CORRUPT_DATA :
+					    (e->flags == 1 && present) ? DUPLICATE_ANNOUNCEMENT :
+					    (e->flags == 0 && !present) ? WITHDRAWAL_OF_UNKNOWN_RECORD : 99;
+			if (want == 99)
+				VASSERT(rc == RTR_SUCCESS && rep_calls == 0, "C14 sync: a valid single-key response succeeds without any report");
+			else
+				VASSERT(rc == RTR_ERROR && rep_sent == 1 && rep_code == want && rep_len == 123 && rep_pdu[1] == ROUTER_KEY,
+					"C14 sync: invalid flags / duplicate / unknown router key are reported with their own codes and the PDU");
+		}
+	}
 #endif
 	VWITNESS("sync end");
 }
